@@ -11,6 +11,18 @@ CHECKS = {
    technique="Lean 4 proof of model = Laurent-polynomial ring + differential correspondence model vs LPoly",
    design="7/C09"),
 }
+CHECKS["C08"] = dict(
+   category="proof",
+   text="Lean theorems (QSP/Properties/C08.lean) prove for all elements and all phase lists that mapping A + B*iX to [[A(w), iB(w)],[iB(1/w), A(1/w)]] over Mathlib's Laurent polynomials turns the model's product, sums, negation, conjugation and mixed products into the matrix operations, that the element built from any phase list is the ordered product R(phi_0) w R(phi_1) ... and is unitary, the read-out algebra and the sign gauge. Each run re-checks the axiom audit and ties the model to /repo's LAlg: every operator on ~2 000 random element pairs (zero components included), the builders on every length 1..60 against the exact product from proven cos/sin enclosures, and the angle read-outs through their defining relation.",
+   note="Trusted: Lean kernel + Mathlib, standard axioms, compiled model driver, Python harness. The numerical read-outs (numpy.angle) are validated through the defining relation on sampled inputs; the correspondence model<->code is sampled.",
+   technique="Lean 4 proof of model = SU(2)-valued Laurent matrices + differential correspondence model vs LAlg",
+   design="7/C08")
+CHECKS["C11"] = dict(
+   category="proof",
+   text="Lean theorems (QSP/Properties/C11.lean) prove for every degree that the model's Chebyshev tables are Mathlib's T_n / U_n, that cheb2poly and poly2cheb invert each other (any field with 2 != 0), and that both Laurent converters denote p((w+1/w)/2) (with NumPy's trailing-zero trimming), and that mixed parity above the threshold is refused. Each run re-checks the audit and compares the real converters with the model on ~900 real and complex vectors of degree 0..30.",
+   note="Trusted: Lean kernel + Mathlib, standard axioms, compiled model driver, Python harness. Comparison tolerance is the conversions' backward-error scale 2^-40 * sum|c_k| ||T_k||_1; SciPy's chebyt tables and NumPy's poly2cheb are oracles whose results are compared, not modelled.",
+   technique="Lean 4 proof about exact conversion model + differential correspondence",
+   design="7/C11")
 NOT_APPLICABLE = {}
 
 def main():
